@@ -115,7 +115,24 @@ def make(typ, c, X, flag, **kw):
         return Povm(c, [v.copy() for v in X.reshape(-1, n)], **cfg)
     if typ == "Gate":
         return Gate(c, X.reshape(n, n).copy(), **cfg)
+    if "shape" not in cfg and _MP_SHAPE[0] is not None and int(np.prod(_MP_SHAPE[0])) == X.size // (n * n):
+        cfg["shape"] = tuple(_MP_SHAPE[0])          # multi-axis outcome layout requested by the caller (see mprocess_shapes)
     return MProcess(c, [h.copy() for h in X.reshape(-1, n, n)], **cfg)
+
+
+_MP_SHAPE = [None]
+_HOSTS = {}
+
+
+def physical_host(typ, c, m, flag):
+    """a physical object built with is_physicality_required=True (the constructor default, as |0><0|, the Z POVM, the identity
+    gate ... are): closures taken from such a host must project unphysical arguments just like closures from any other host"""
+    key = (typ, id(c), m, flag, tuple(_MP_SHAPE[0]) if _MP_SHAPE[0] is not None else None)
+    if key not in _HOSTS:
+        kind = [k for k, v in _SYS.items() if v[0] is c][0]
+        g = np.random.default_rng(sum(ord(ch) for ch in typ + kind) * 31 + m)
+        _HOSTS[key] = make(typ, c, gen_param(g, typ, kind, m, 1.0, "physical"), flag, is_physicality_required=True)
+    return _HOSTS[key]
 
 
 def eq_system(typ, c, m):
@@ -387,14 +404,19 @@ def call_site(typ, c, which, site, flag, x, m, tap=False):
     """run one projection entry point of the real code.  `x` are the stacked parameters of the full object; for flag True the
     variable-level sites receive to_var(x).  Closure sites come in three variants: `func` / `funcvar` (closure requested with the
     explicit flag from an object carrying the same flag), `func-opp` / `funcvar-opp` (explicit flag, object carrying the OPPOSITE flag),
-    `func-dflt` / `funcvar-dflt` (flag not passed: the object's own flag, which is `flag`, must be used).
+    `func-dflt` / `funcvar-dflt` (flag not passed: the object's own flag, which is `flag`, must be used),
+    `func-phys` / `funcvar-phys` (explicit flag, host is a PHYSICAL object built with is_physicality_required=True).
     Returns dict(result=stacked-or-var array | None, err, arg_before, arg_after, eigh)"""
     cls = CLS[typ]
     out = dict(err=None, result=None, eigh=[])
     hflag = (not flag) if site.endswith("-opp") else flag
     kwargs = {} if site.endswith("-dflt") else {"on_para_eq_constraint": flag}
+    phys = site.endswith("-phys")
     site = site_base(site)
-    holder = make(typ, c, of_var(typ, c, to_var(typ, c, x, flag), flag) if site != "obj" else x, hflag)
+    if phys:
+        holder = physical_host(typ, c, m, hflag)
+    else:
+        holder = make(typ, c, of_var(typ, c, to_var(typ, c, x, flag), flag) if site != "obj" else x, hflag)
     if site == "obj":
         obj = make(typ, c, x, flag)
         arg = obj
@@ -439,7 +461,7 @@ def call_site(typ, c, which, site, flag, x, m, tap=False):
 
 
 SITES = ("obj", "var", "func", "funcvar")
-CLOSURE_VARIANTS = ("func-opp", "funcvar-opp", "func-dflt", "funcvar-dflt")
+CLOSURE_VARIANTS = ("func-opp", "funcvar-opp", "func-dflt", "funcvar-dflt", "func-phys", "funcvar-phys")
 ALL_SITES = SITES + CLOSURE_VARIANTS
 
 
@@ -628,10 +650,11 @@ def sig(which, typ, site, flag, what):
     return f"C04/{which}/{typ}/{site}/{'T' if flag else 'F'}/{what}"
 
 
-def check_point(ctx, g, which, typ, kind, m, x, scale, cls, ncomp):
+def check_point(ctx, g, which, typ, kind, m, x, scale, cls, ncomp, extra=None):
     """all clauses of the property for one input and one projection kind, on the real code"""
     c, _ = system(kind)
     rep0 = {"which": which, "typ": typ, "system": kind, "m": m, "x": np.asarray(x).tolist(), "scale": scale, "class": cls}
+    rep0.update(extra or {})
     bucket = SCALE_NAME.get(scale, "1")
     results = {}
     for flag in (False, True):
@@ -767,6 +790,7 @@ def oracle(ctx, volume=1):
     defect_d5(ctx)
     basis_table_sequence(ctx, volume)
     equal_dim_sequence(ctx, volume)
+    mprocess_shapes(ctx, volume)
     low_purity(ctx, volume)
 
 
@@ -781,6 +805,48 @@ def basis_table_sequence(ctx, volume=1):
                     x = gen_param(g, typ, kind, m, 1.0, cls)
                     ctx.count(f"oracle basis-table sequence {typ} {kind} class={cls}")
                     check_point(ctx, g, "ineq", typ, kind, m, x, 1.0, cls, 3)
+
+
+def mprocess_shapes(ctx, volume=1):
+    """measurement processes whose outcomes are laid out on several axes (shape (2,2), (2,3), (1,3), (3,1): what
+    tensor_product / compose of m-processes produce): the equality projection spreads the defect over ALL outcomes"""
+    from quara.objects.operators import tensor_product
+    g = ctx.npgen(12)
+    cq, _ = system("q")
+    todo = [("q", sh) for sh in ((2, 2), (2, 3), (1, 3), (3, 1))] + [("t", (2, 2))]
+    for kind, sh in todo:
+        m = int(np.prod(sh))
+        for cls in ("random", "near"):
+            x = gen_param(g, "MProcess", kind, m, 1.0, cls)
+            _MP_SHAPE[0] = sh
+            try:
+                ctx.count(f"oracle mprocess shape={sh} {kind} class={cls}")
+                check_point(ctx, g, "eq", "MProcess", kind, m, x, 1.0, cls, 2, extra={"shape": list(sh)})
+            finally:
+                _MP_SHAPE[0] = None
+    # a genuine tensor product of two 1-qubit m-processes (shape (2,2) on a 2-qubit system), perturbed
+    a = make("MProcess", cq, gen_param(g, "MProcess", "q", 2, 1.0, "physical"), False)
+    c1 = qobj.csys("qubit", names=(10,))
+    b = MProcess(c1, [h.copy() for h in gen_param(g, "MProcess", "q", 2, 1.0, "physical").reshape(2, 4, 4)], is_physicality_required=False,
+                 on_para_eq_constraint=False)
+    tp = tensor_product(a, b)
+    c2 = tp.composite_system
+    x = stacked(tp) + dy(g, stacked(tp).shape, 2.0 ** -4)
+    obj = MProcess(c2, [h.copy() for h in x.reshape(4, 16, 16)], shape=tp.shape, is_physicality_required=False, on_para_eq_constraint=False)
+    rep = {"which": "eq", "typ": "MProcess", "system": "tensor(q,q)", "m": 4, "x": x.tolist(), "shape": list(tp.shape), "kind": "tensor"}
+    ctx.case(("oracle", "eq", "MProcess", "tensor", tuple(x.tolist())))
+    try:
+        r = stacked(obj.calc_proj_eq_constraint())
+        v = np.array(MProcess.calc_proj_eq_constraint_with_var(c2, x.copy(), on_para_eq_constraint=False), dtype=float)
+        f = np.array(obj.func_calc_proj_eq_constraint(on_para_eq_constraint=False)(x.copy()), dtype=float)
+    except Exception as e:  # noqa
+        ctx.violate("C04/eq/MProcess/tensor-shape/raises", f"{type(e).__name__}: {e}", rep); return
+    ref = eq_ref("MProcess", c2, 4, x)
+    for nm, val in (("obj", r), ("var", v), ("func", f)):
+        if np.max(np.abs(val - ref)) > 1e-9:
+            ctx.violate(f"C04/eq/MProcess/{nm}/tensor-shape/not-nearest",
+                        f"tensor product of two 2-outcome m-processes (shape {tuple(tp.shape)}): {nm} result differs from the nearest "
+                        f"feasible point by {np.max(np.abs(val - ref)):.3g}", rep)
 
 
 def equal_dim_sequence(ctx, volume=1):
@@ -845,9 +911,16 @@ def replay(ctx, data):
     r = data["replay"]
     print("replaying", {k: v for k, v in r.items() if k != "x"})
     before = len(ctx.violations)
-    warm_siblings(r["system"])
-    check_point(ctx, ctx.npgen(1), r["which"], r["typ"], r["system"], r["m"], np.array(r["x"], dtype=float), r.get("scale", 1.0),
-                r.get("class", "random"), 8)
+    if r.get("kind") == "tensor":
+        mprocess_shapes(ctx)
+    else:
+        warm_siblings(r["system"])
+        _MP_SHAPE[0] = tuple(r["shape"]) if r.get("shape") else None
+        try:
+            check_point(ctx, ctx.npgen(1), r["which"], r["typ"], r["system"], r["m"], np.array(r["x"], dtype=float), r.get("scale", 1.0),
+                        r.get("class", "random"), 8, extra={"shape": r["shape"]} if r.get("shape") else None)
+        finally:
+            _MP_SHAPE[0] = None
     for v in ctx.violations[before:]:
         print(" ", v["signature"], "--", v["what"])
     hit = [v for v in ctx.violations[before:] if v["signature"] == data.get("signature")]
